@@ -344,12 +344,19 @@ func runC14(r *core.Run) {
 	// evaluated at every call (Scope.tla, family Sk11: the same call before and after what the default reads changed)
 	{
 		var cases []scopeCase
-		r.RunTLC(core.TLCOpts{Module: "ScopeGen", Cfg: "ScopeGen_defaults.cfg", Workers: 2, Timeout: 10 * time.Minute, OnTrace: func(raw json.RawMessage) {
-			var c scopeCase
-			if err := json.Unmarshal(raw, &c); err == nil && c.Prog != nil {
-				cases = append(cases, c)
-			}
-		}})
+		// ... and the blocks of the program are not shared between what is alive at the same time: functions left by RETURN from
+		// inside a loop, then blocks nested four deep; blocks with many declarations (families Sk12, Sk18, Sk19)
+		for _, cfg := range []string{"ScopeGen_defaults.cfg", "ScopeGen_pool.cfg"} {
+			r.RunTLC(core.TLCOpts{Module: "ScopeGen", Cfg: cfg, Workers: 2, Timeout: 10 * time.Minute, OnTrace: func(raw json.RawMessage) {
+				var c scopeCase
+				if err := json.Unmarshal(raw, &c); err == nil && c.Prog != nil {
+					if c.Out == nil {
+						c.Out = []string{}
+					}
+					cases = append(cases, c)
+				}
+			}})
+		}
 		rep := map[string]bool{}
 		for _, c := range cases {
 			p, err := sut.NewProc(dir, nil)
